@@ -18,7 +18,15 @@
 //	            mutating = true|false by name and by what is known about x (see classify)
 //	calls       the functions of the package it calls (by position in the list)
 //
-// Calls inside function literals count for the enclosing function; deferred calls and `go` calls count as calls.
+// Function literals. A literal that is invoked on the spot (`func(){…}()`, also deferred) counts for the function (or
+// literal) it is written in. A literal passed DIRECTLY as an argument to a function of the package whose corresponding
+// parameter is CALL-ONLY — the callee's body uses that parameter for nothing but direct calls `p(…)`, in its own body,
+// outside nested literals and outside go/defer statements, so the literal runs only while the callee's body runs — is a
+// node of its own ("Encl.funcN", not exported) with a call edge FROM THE CALLEE: it inherits the lock the callee holds
+// (`lock…(); defer unlock…(); body()` helpers, any name) and nothing from the function it is written in. Every other
+// literal (stored in a variable, passed to another package, passed where the parameter is stored or handed on, started
+// with `go`) may run at any time: it is a node of its own marked exported (an entry point: no lock guaranteed).
+// `go f(…)` likewise starts f from a synthetic entry point ("Encl.goN"). Deferred calls count as calls.
 package main
 
 import (
@@ -110,12 +118,15 @@ func classify(method string, recv *libVal, rdonlyFlag bool) bool {
 }
 
 type pkgInfo struct {
-	hdf5Name string // import name of gonum.org/v1/hdf5 in the file being visited
-	funcs    map[string]*fn
-	methods  map[string][]string // method name -> full names
-	types    map[string]bool     // package-level type names
-	results  map[string]string   // function full name -> kind of the library value it returns ("-" none)
-	muNames  map[string]bool     // package-level sync.(RW)Mutex variables
+	callOnly   map[string]map[int]bool // function full name -> positions of its call-only func parameters
+	extra      []*fn                   // synthetic nodes (function literals, go statements), in creation order
+	extraCalls map[string][]string     // call edges added to OTHER functions (callee -> literal it is handed)
+	hdf5Name   string                  // import name of gonum.org/v1/hdf5 in the file being visited
+	funcs      map[string]*fn
+	methods    map[string][]string // method name -> full names
+	types      map[string]bool     // package-level type names
+	results    map[string]string   // function full name -> kind of the library value it returns ("-" none)
+	muNames    map[string]bool     // package-level sync.(RW)Mutex variables
 }
 
 func recvTypeName(e ast.Expr) string {
@@ -189,7 +200,7 @@ func main() {
 		name string
 	}
 	var files []parsed
-	info := &pkgInfo{funcs: map[string]*fn{}, methods: map[string][]string{}, types: map[string]bool{}, results: map[string]string{}, muNames: map[string]bool{}}
+	info := &pkgInfo{callOnly: map[string]map[int]bool{}, extraCalls: map[string][]string{}, funcs: map[string]*fn{}, methods: map[string][]string{}, types: map[string]bool{}, results: map[string]string{}, muNames: map[string]bool{}}
 	var order []string
 	for _, n := range names {
 		if strings.HasSuffix(n, "_test.go") {
@@ -203,7 +214,7 @@ func main() {
 		if !fileActive(n, src) {
 			continue
 		}
-		f, err := parser.ParseFile(fset, n, src, parser.SkipObjectResolution)
+		f, err := parser.ParseFile(fset, n, src, 0)
 		if err != nil {
 			fmt.Fprintln(os.Stderr, "owlockgraph:", err)
 			os.Exit(2)
@@ -267,6 +278,7 @@ func main() {
 					}
 				}
 				info.results[full] = kind
+				info.callOnly[full] = callOnlyParams(d)
 			}
 		}
 	}
@@ -284,6 +296,25 @@ func main() {
 				}
 			}
 		}
+	}
+	for _, e := range info.extra {
+		info.funcs[e.Name] = e
+		order = append(order, e.Name)
+	}
+	for callee, lits := range info.extraCalls {
+		if f := info.funcs[callee]; f != nil {
+			f.Calls = append(f.Calls, lits...)
+		}
+	}
+	for _, f := range info.funcs {
+		sort.Strings(f.Calls)
+		out := f.Calls[:0]
+		for i, c := range f.Calls {
+			if i == 0 || c != f.Calls[i-1] {
+				out = append(out, c)
+			}
+		}
+		f.Calls = out
 	}
 	sort.Strings(order)
 	fns := make([]*fn, len(order))
@@ -355,20 +386,39 @@ func analyse(info *pkgInfo, f *fn, fd *ast.FuncDecl) {
 	addParam(fd.Recv)
 	addParam(fd.Type.Params)
 
-	seenLib := map[string]bool{}
-	seenCall := map[string]bool{}
-	addLib := func(name string, mut bool) {
+	seenLib := map[*fn]map[string]bool{}
+	seenCall := map[*fn]map[string]bool{}
+	addLib := func(cur *fn, name string, mut bool) {
 		k := fmt.Sprintf("%s/%v", name, mut)
-		if !seenLib[k] {
-			seenLib[k] = true
-			f.Lib = append(f.Lib, libCall{name, mut})
+		if seenLib[cur] == nil {
+			seenLib[cur] = map[string]bool{}
+		}
+		if !seenLib[cur][k] {
+			seenLib[cur][k] = true
+			cur.Lib = append(cur.Lib, libCall{name, mut})
 		}
 	}
-	addCall := func(name string) {
-		if !seenCall[name] {
-			seenCall[name] = true
-			f.Calls = append(f.Calls, name)
+	addCall := func(cur *fn, name string) {
+		if seenCall[cur] == nil {
+			seenCall[cur] = map[string]bool{}
 		}
+		if !seenCall[cur][name] {
+			seenCall[cur][name] = true
+			cur.Calls = append(cur.Calls, name)
+		}
+	}
+	// parameters of the function literals written in this function (library values handed to a callback)
+	ast.Inspect(fd.Body, func(n ast.Node) bool {
+		if l, ok := n.(*ast.FuncLit); ok {
+			addParam(l.Type.Params)
+		}
+		return true
+	})
+	nLit, nGo := 0, 0
+	synthetic := func(suffix string, exported bool) *fn {
+		e := &fn{Name: f.Name + "." + suffix, Exported: exported, Lock: "none", File: f.File}
+		info.extra = append(info.extra, e)
+		return e
 	}
 
 	// exprVal: the library value an expression yields (nil: not a library value); registers the calls it contains lazily
@@ -472,86 +522,238 @@ func analyse(info *pkgInfo, f *fn, fd *ast.FuncDecl) {
 		})
 	}
 
-	// then the calls
-	ast.Inspect(fd.Body, func(n ast.Node) bool {
-		switch x := n.(type) {
+	// then the calls. `cur` is the node the statements being visited belong to: the function itself, or a literal of its own.
+	// callees: the functions of the package a call expression may reach ("" receiver: every method of that name)
+	callees := func(x *ast.CallExpr) []string {
+		switch fun := x.Fun.(type) {
 		case *ast.Ident:
-			if info.muNames[x.Name] {
-				f.Irregular = true
+			if _, ok := info.funcs[fun.Name]; ok {
+				return []string{fun.Name}
 			}
-		case *ast.CallExpr:
-			if skip[x] {
-				return true
+		case *ast.SelectorExpr:
+			if id, ok := fun.X.(*ast.Ident); ok && id.Name == info.hdf5Name && info.hdf5Name != "" {
+				return nil
 			}
-			switch fun := x.Fun.(type) {
+			if rv := exprVal(fun.X); rv != nil {
+				return nil
+			}
+			cands := info.methods[fun.Sel.Name]
+			if len(cands) == 0 {
+				return nil
+			}
+			if id, ok := fun.X.(*ast.Ident); ok {
+				if external[id.Name] {
+					return nil
+				}
+				if tn, ok := localType[id.Name]; ok {
+					if _, ok := info.funcs[tn+"."+fun.Sel.Name]; ok {
+						return []string{tn + "." + fun.Sel.Name}
+					}
+					return nil
+				}
+				if _, isPkg := importNames(fd, id.Name); isPkg {
+					return nil
+				}
+			}
+			if cl, ok := fun.X.(*ast.CompositeLit); ok {
+				if tn := recvTypeName(cl.Type); info.types[tn] {
+					if _, ok := info.funcs[tn+"."+fun.Sel.Name]; ok {
+						return []string{tn + "." + fun.Sel.Name}
+					}
+					return nil
+				}
+			}
+			return cands // receiver of unknown type: every method of that name
+		}
+		return nil
+	}
+	var walk func(n ast.Node, cur *fn)
+	escaping := func(l *ast.FuncLit) {
+		nLit++
+		walk(l.Body, synthetic(fmt.Sprintf("func%d", nLit), true))
+	}
+	var call func(x *ast.CallExpr, cur *fn)
+	call = func(x *ast.CallExpr, cur *fn) {
+		if skip[x] {
+			for _, a := range x.Args {
+				walk(a, cur)
+			}
+			return
+		}
+		// a literal invoked on the spot runs here
+		if l, ok := x.Fun.(*ast.FuncLit); ok {
+			walk(l.Body, cur)
+			for _, a := range x.Args {
+				walk(a, cur)
+			}
+			return
+		}
+		cands := callees(x)
+		switch fun := x.Fun.(type) {
+		case *ast.Ident:
+			if _, prim := lockPrims[fun.Name]; prim {
+				cur.Irregular = true
+			}
+		case *ast.SelectorExpr:
+			if id, ok := fun.X.(*ast.Ident); ok && id.Name == info.hdf5Name && info.hdf5Name != "" {
+				ro := false
+				if fun.Sel.Name == "OpenFile" && len(x.Args) == 2 {
+					if s, ok := x.Args[1].(*ast.SelectorExpr); ok && s.Sel.Name == "F_ACC_RDONLY" {
+						ro = true
+					}
+				}
+				addLib(cur, info.hdf5Name+"."+fun.Sel.Name, classify(fun.Sel.Name, nil, ro))
+			} else if rv := exprVal(fun.X); rv != nil {
+				k := rv.kind
+				if k == "" {
+					k = "?"
+				}
+				addLib(cur, k+"."+fun.Sel.Name, classify(fun.Sel.Name, rv, false))
+			}
+			walk(fun.X, cur)
+		default:
+			walk(x.Fun, cur)
+		}
+		for _, c := range cands {
+			addCall(cur, c)
+		}
+		for i, a := range x.Args {
+			l, ok := a.(*ast.FuncLit)
+			if !ok {
+				walk(a, cur)
+				continue
+			}
+			handed := len(cands) > 0
+			for _, c := range cands {
+				if !info.callOnly[c][i] {
+					handed = false
+				}
+			}
+			if !handed {
+				escaping(l)
+				continue
+			}
+			// the callee(s) call the literal while their own body runs, and do nothing else with it
+			nLit++
+			node := synthetic(fmt.Sprintf("func%d", nLit), false)
+			for _, c := range cands {
+				info.extraCalls[c] = append(info.extraCalls[c], node.Name)
+			}
+			walk(l.Body, node)
+		}
+	}
+	walk = func(n ast.Node, cur *fn) {
+		if n == nil {
+			return
+		}
+		ast.Inspect(n, func(n ast.Node) bool {
+			switch x := n.(type) {
 			case *ast.Ident:
-				if _, prim := lockPrims[fun.Name]; prim {
-					f.Irregular = true
-					return true
+				if info.muNames[x.Name] {
+					cur.Irregular = true
 				}
-				if _, ok := info.funcs[fun.Name]; ok {
-					addCall(fun.Name)
+			case *ast.FuncLit:
+				escaping(x)
+				return false
+			case *ast.GoStmt:
+				nGo++
+				call(x.Call, synthetic(fmt.Sprintf("go%d", nGo), true))
+				return false
+			case *ast.CallExpr:
+				call(x, cur)
+				return false
+			}
+			return true
+		})
+	}
+	walk(fd.Body, f)
+	all := []*fn{f}
+	for _, e := range info.extra {
+		if strings.HasPrefix(e.Name, f.Name+".") && e.File == f.File {
+			all = append(all, e)
+		}
+	}
+	for _, g := range all {
+		sort.Slice(g.Lib, func(i, j int) bool {
+			if g.Lib[i].Name != g.Lib[j].Name {
+				return g.Lib[i].Name < g.Lib[j].Name
+			}
+			return !g.Lib[i].Mutating && g.Lib[j].Mutating
+		})
+	}
+}
+
+// callOnlyParams: positions of the parameters of func type that the body uses for nothing but direct calls `p(…)` made in the
+// function's own body (not inside a nested literal, not as the call of a go or defer statement): whatever is passed there runs
+// only while this function's body runs.
+func callOnlyParams(fd *ast.FuncDecl) map[int]bool {
+	out := map[int]bool{}
+	if fd.Body == nil || fd.Type.Params == nil {
+		return out
+	}
+	pos := 0
+	objs := map[*ast.Object]int{}
+	for _, p := range fd.Type.Params.List {
+		_, isFunc := p.Type.(*ast.FuncType)
+		if len(p.Names) == 0 {
+			pos++
+		}
+		for _, id := range p.Names {
+			if isFunc && id.Obj != nil && id.Name != "_" {
+				objs[id.Obj] = pos
+			}
+			pos++
+		}
+	}
+	if len(objs) == 0 {
+		return out
+	}
+	bad := map[*ast.Object]bool{}
+	okUse := map[*ast.Ident]bool{}
+	var visit func(n ast.Node, inLit bool)
+	visit = func(n ast.Node, inLit bool) {
+		ast.Inspect(n, func(n ast.Node) bool {
+			switch x := n.(type) {
+			case *ast.FuncLit:
+				if !inLit {
+					visit(x.Body, true)
+					return false
 				}
-			case *ast.SelectorExpr:
-				if id, ok := fun.X.(*ast.Ident); ok && id.Name == info.hdf5Name && info.hdf5Name != "" {
-					ro := false
-					if fun.Sel.Name == "OpenFile" && len(x.Args) == 2 {
-						if s, ok := x.Args[1].(*ast.SelectorExpr); ok && s.Sel.Name == "F_ACC_RDONLY" {
-							ro = true
-						}
+			case *ast.GoStmt:
+				if id, ok := x.Call.Fun.(*ast.Ident); ok && id.Obj != nil {
+					if _, is := objs[id.Obj]; is {
+						bad[id.Obj] = true
 					}
-					addLib(info.hdf5Name+"."+fun.Sel.Name, classify(fun.Sel.Name, nil, ro))
-					return true
 				}
-				if rv := exprVal(fun.X); rv != nil {
-					k := rv.kind
-					if k == "" {
-						k = "?"
-					}
-					addLib(k+"."+fun.Sel.Name, classify(fun.Sel.Name, rv, false))
-					return true
-				}
-				// a method of the package?
-				cands := info.methods[fun.Sel.Name]
-				if len(cands) == 0 {
-					return true
-				}
-				if id, ok := fun.X.(*ast.Ident); ok {
-					if external[id.Name] {
-						return true
-					}
-					if tn, ok := localType[id.Name]; ok {
-						if _, ok := info.funcs[tn+"."+fun.Sel.Name]; ok {
-							addCall(tn + "." + fun.Sel.Name)
-						}
-						return true
-					}
-					if _, isPkg := importNames(fd, id.Name); isPkg {
-						return true
+			case *ast.DeferStmt:
+				if id, ok := x.Call.Fun.(*ast.Ident); ok && id.Obj != nil {
+					if _, is := objs[id.Obj]; is {
+						bad[id.Obj] = true
 					}
 				}
-				if cl, ok := fun.X.(*ast.CompositeLit); ok {
-					if tn := recvTypeName(cl.Type); info.types[tn] {
-						if _, ok := info.funcs[tn+"."+fun.Sel.Name]; ok {
-							addCall(tn + "." + fun.Sel.Name)
-						}
-						return true
+			case *ast.CallExpr:
+				if id, ok := x.Fun.(*ast.Ident); ok && id.Obj != nil && !inLit {
+					if _, is := objs[id.Obj]; is {
+						okUse[id] = true
 					}
 				}
-				for _, c := range cands { // receiver of unknown type: every method of that name
-					addCall(c)
+			case *ast.Ident:
+				if x.Obj != nil {
+					if _, is := objs[x.Obj]; is && !okUse[x] {
+						bad[x.Obj] = true
+					}
 				}
 			}
+			return true
+		})
+	}
+	visit(fd.Body, false)
+	for o, i := range objs {
+		if !bad[o] {
+			out[i] = true
 		}
-		return true
-	})
-	sort.Slice(f.Lib, func(i, j int) bool {
-		if f.Lib[i].Name != f.Lib[j].Name {
-			return f.Lib[i].Name < f.Lib[j].Name
-		}
-		return !f.Lib[i].Mutating && f.Lib[j].Mutating
-	})
-	sort.Strings(f.Calls)
+	}
+	return out
 }
 
 // importNames: is `name` an imported package name in the file of fd? (approximation: lower-case identifiers that are
